@@ -502,7 +502,31 @@ class TrainRun:
     def make_env(self):
         e = dict(self.plan["env"])
         e.pop("kind", None)
+        e.pop("scripts", None)
         return SimEnv(**e)
+
+    def sub_envs(self):
+        return self.envs if getattr(self, "envs", None) else [self.env]
+
+    def make_vector(self):
+        """Real SyncVectorEnv (SAME_STEP autoreset, the mode PPO asserts) over 1-3 SimEnvs with different scripts."""
+        import gymnasium as gym
+
+        n = self.plan["cfg"]["num_envs"]
+        scripts = self.plan["env"].get("scripts") or [self.plan["env"]["script"]] * n
+        self.envs = []
+        for i in range(n):
+            e = dict(self.plan["env"])
+            e.pop("scripts", None)
+            e["script"] = scripts[i % len(scripts)]
+            e["space_seed"] = e.get("space_seed", 0) + i
+            e["name"] = f"env{i}"
+            self.envs.append(SimEnv(**e))
+        fns = [(lambda env=env: env) for env in self.envs]
+        vec = gym.vector.SyncVectorEnv(fns, autoreset_mode=gym.vector.AutoresetMode.SAME_STEP)
+        if self.adapter.name == "a2c":
+            vec = gym.wrappers.vector.RecordEpisodeStatistics(vec)
+        return vec
 
     def all_comps(self):
         d = dict(self.comps)
@@ -531,7 +555,7 @@ class TrainRun:
             self.iter_k = self.start_step + (env.n_steps - self.steps_at_call)
             self.snapshot(("step",), self.iter_k)
             self.check_acting(env, info)
-        else:
+        elif not self.adapter.vector:  # SAME_STEP autoreset resets inside the vector step
             self.snapshot(("reset",), self.iter_k)
 
     def on_log(self, ev):
@@ -562,7 +586,12 @@ class TrainRun:
 
         plan = self.plan
         self.env = self.make_env()
+        self.envs = None
+        if self.adapter.vector:
+            self.vec = self.make_vector()
+            self.env = self.envs[0]
         self.comps = self.adapter.build(self)
+        undo = self.adapter.install(self) if hasattr(self.adapter, "install") else []
         size = plan["cfg"].get("buffer_size", 1000)
         if plan.get("supply_buffer", True) or hasattr(self.adapter, "make_buffer"):
             if hasattr(self.adapter, "make_buffer"):
@@ -585,14 +614,16 @@ class TrainRun:
                 self.logger = LoggerList([self.logger, self.memory_logger])
         self.env.listeners.append(self.on_env)
         mons = monitors.attach(self)
+        self._undo = undo
         start = plan.get("start_step", 0)
         self.calls = []
         gs = start
         for link in plan["chain"]:
             self.start_step = gs
             self.steps_at_call = self.env.n_steps
+            self.steps_at_call_all = sum(e.n_steps for e in self.sub_envs())
             resets_before = self.env.n_resets
-            episodes_before = sum(1 for s in self.env.steps() if s["term"] or s["trunc"])
+            episodes_before = sum(1 for e in self.sub_envs() for s in e.steps() if s["term"] or s["trunc"])
             self.snapshot(("call",), gs)
             err = None
             result = None
@@ -607,10 +638,10 @@ class TrainRun:
             import jax
 
             jax.effects_barrier()
-            executed = self.env.n_steps - self.steps_at_call
-            st_all = self.env.steps()
+            executed = sum(e.n_steps for e in self.sub_envs()) - self.steps_at_call_all
+            st_all = [s for e in self.sub_envs() for s in e.steps()] if self.adapter.vector else self.env.steps()
             rec = {"link": link, "start": gs, "executed": executed, "last_done": bool(executed and (st_all[-1]["term"] or st_all[-1]["trunc"])), "error": repr(err) if err else None,
-                   "aborted": self.aborted, "episodes": sum(1 for s in self.env.steps() if s["term"] or s["trunc"]) - episodes_before}
+                   "aborted": self.aborted, "episodes": sum(1 for e in self.sub_envs() for s in e.steps() if s["term"] or s["trunc"]) - episodes_before}
             if result is not None:
                 out = self.adapter.outcome(self, result)
                 rec["returned_step"] = out.get("step")
@@ -628,6 +659,8 @@ class TrainRun:
                 break
             # resume with the counter the routine reported (that is what a user would do)
             gs = rec.get("returned_step") if rec.get("returned_step") is not None else gs + executed
+        for mod, attr, orig in self._undo:
+            setattr(mod, attr, orig)
         for m in mons:
             m.finish()
         self.finish_log()
@@ -635,10 +668,10 @@ class TrainRun:
 
     def finish_log(self):
         env = self.env
-        self.res.simt("env_steps", env.n_steps)
-        self.res.simt("episodes", sum(1 for s in env.steps() if s["term"] or s["trunc"]))
+        self.res.simt("env_steps", sum(x.n_steps for x in self.sub_envs()))
+        self.res.simt("episodes", sum(1 for x in self.sub_envs() for s in x.steps() if s["term"] or s["trunc"]))
         self.res.simt("snapshots", len(self.snaps))
-        for e in env.log:
+        for e in [ev for x in self.sub_envs() for ev in x.log]:
             if e["k"] == "step":
                 self.res.log.add("s", e["i"], e["a"], e["gid0"], e["gid1"], e["r"], e["term"], e["trunc"])
             elif e["k"] == "reset":
@@ -681,3 +714,4 @@ def execute(plan):
 
 
 from . import adapters2  # noqa: E402,F401  (registers TD7, MR.Q, PETS)
+from . import adapters3  # noqa: E402,F401  (registers REINFORCE, actor-critic, A2C, PPO, CMA-ES)
